@@ -50,10 +50,13 @@ type jdb struct {
 	recording bool
 	journal   []elem
 	onWrite   func(db *jdb, idx int) // idx = index of the element just applied
-	rd        *readLog
-	writes    int64 // elements applied over the lifetime
-	live      bool  // one of the two databases of the running chain: memo entries are kept for it
-	deps      map[string][]*memoEntry
+	// beforeWrite is called with every element before it is applied; a crash is injected by panicking here
+	// (the element and everything after it never reach the database)
+	beforeWrite func(db *jdb, e elem)
+	rd          *readLog
+	writes      int64 // elements applied over the lifetime
+	live        bool  // one of the two databases of the running chain: memo entries are kept for it
+	deps        map[string][]*memoEntry
 }
 
 var fpSeed = maphash.MakeSeed()
@@ -144,6 +147,9 @@ func (d *jdb) applied(e elem) {
 }
 
 func (d *jdb) set(kind string, key, val []byte) error {
+	if d.beforeWrite != nil {
+		d.beforeWrite(d, elem{Kind: kind, Ops: []opRec{{Key: key, Val: val}}})
+	}
 	if err := d.inner.Set(key, val); err != nil {
 		return err
 	}
@@ -152,6 +158,9 @@ func (d *jdb) set(kind string, key, val []byte) error {
 }
 
 func (d *jdb) del(kind string, key []byte) error {
+	if d.beforeWrite != nil {
+		d.beforeWrite(d, elem{Kind: kind, Ops: []opRec{{Del: true, Key: key}}})
+	}
 	if err := d.inner.Delete(key); err != nil {
 		return err
 	}
@@ -219,6 +228,9 @@ func (b *jbatch) Delete(key []byte) error {
 func (b *jbatch) write(kind string) error {
 	if b.closed {
 		return errBatchClosed
+	}
+	if b.db.beforeWrite != nil {
+		b.db.beforeWrite(b.db, elem{Kind: kind, Ops: b.ops})
 	}
 	ib := b.db.inner.NewBatch() // applied under the MemDB lock in one go
 	for _, o := range b.ops {
